@@ -8,6 +8,7 @@ Driver for stream `blocks` (C06): one op per line, one observation per line.
   pool <id>/<wit>,<id>/<wit>...|-            -> ok                  (mempool: tx hash and witness id)
   sig <wit> <hash> <addr> <b>                -> ok                  (fact: does the witness sign the hash for addr)
   undecodable                                -> ok                  (bytes that do not decode never reach AddBlock)
+  note <text>                                -> ok                  (a step of the case that is judged by the oracle only)
   addheaders <h>;<h>;...|-      h = idx:hash:prev:ts:nc:psr:wit
      -> ok bh=<n> hh=<n> top=<hash of the last recorded header> | err:<class> bh=<n> hh=<n> db=same
   addblock idx= sre= hash= prev= ts= nc= psr= wit= mroot= cmroot= newroot= store= txs=<tx>,..|-
@@ -104,7 +105,8 @@ def doAddBlock (st : DState) (ws : List String) : Option (DState × String) := d
     balance := fun _ a => ((st.bals.find? (fun p => p.1 == a)).map (·.2)).getD 0,
     apply := fun _ _ => if store then some newroot else none,
     rootOf := fun l => l,
-    keep := fun _ _ => true }
+    keep := fun _ _ => true,
+    spoil := fun l _ => l }   -- follow-ups of a failed execution are not tied (see `note`)
   let (n', e) := addBlock env st.node b
   let hh := n'.headerHeight
   match e with
@@ -137,7 +139,7 @@ def doAddHeaders (st : DState) (arg : String) : Option (DState × String) := do
   let env : Env Nat := {
     signedBy := fun w h a => st.sigs.contains (w, h, a),
     merkle := fun _ => 0, txValid := fun _ _ _ => false, balance := fun _ _ => 0,
-    apply := fun _ _ => none, rootOf := fun l => l, keep := fun _ _ => true }
+    apply := fun _ _ => none, rootOf := fun l => l, keep := fun _ _ => true, spoil := fun l _ => l }
   let (n', e) := addHeaders env st.node (!st.node.cfg.skip) hs
   match e with
   | none =>
@@ -153,6 +155,7 @@ def step (st : DState) (ws : List String) : DState × String :=
   match ws with
   | ["case", k] => (initState, s!"case {k}")
   | ["undecodable"] => (st, "ok")
+  | "note" :: _ => (st, "ok")
   | "cfg" :: rest =>
     match (kv rest "sr").bind bit, (kv rest "vt").bind bit, (kv rest "skip").bind bit with
     | some sr, some vt, some sk => ({ st with node := { st.node with cfg := { sr := sr, verifyTx := vt, skip := sk } } }, "ok")
